@@ -489,6 +489,19 @@ fn run_tree(fields: &[&str]) -> String {
             alt = "bad";
         }
     }
+    // the bytes written must not depend on how much the writer takes per call (`Write::write` may be partial)
+    if alt == "ok" && r == "ok" {
+        for max in [1usize, 3, 7] {
+            let mut w = super::xmlser::ShortWriter { data: vec![], max };
+            let ok = catch_unwind(AssertUnwindSafe(|| {
+                serialize(&mut w, &SerializableHandle::from(h.clone()), opts(&scope, scripting, cmp)).is_ok()
+            }))
+            .unwrap_or(false);
+            if !ok || w.data != out {
+                alt = "bad-short-write";
+            }
+        }
+    }
     let mut bad = vec![];
     inner_outer(&tree, &h, "r", scripting, cmp, &mut bad);
     let rt = round_trip(&tree, &h, scripting);
